@@ -44,6 +44,7 @@ def run(ck):
   for fid, bes in G.FIXED_STREAMS.items():
     if BE in bes:
       for k in range(cfg['finding_each']): corpus.append(G.gen_fixed(random.Random(rng.getrandbits(64)), BE, fid))
+  for k in range(cfg['finding_each'] + 1): corpus += G.gen_history(random.Random(rng.getrandbits(64)), BE)
   U.run_batch(ck, BE, corpus, stats, cfg['ncycles'] + 2, cfg['nstores'])
   fd = [dict(w) for w in K.WITNESSES if BE in w['backends']]      # canonical witnesses first, then randomised instances
   for fid, (bes, _) in G.FINDING_STREAMS.items():
